@@ -24,6 +24,7 @@ import Sds.Proofs.GenEqIdx
 import Sds.Proofs.GenEqLoop4
 import Sds.Proofs.GenEqWM
 import Sds.Proofs.GenEqConstr5
+import Sds.Proofs.GenEqWMNew
 
 namespace Sds.C04
 open Sds Outcome
@@ -351,5 +352,24 @@ theorem wm_core_construction_as_translated_from_source (m : Mode) (source : Arra
     Generated.gen_WMCore_from_u64 m source = ok (WMCore.ofValues (source.toList.map (·.toNat))) ∧
     (∀ c : WMCore, Generated.gen_WMCore_init_support m c = ok c.initSupport) :=
   ⟨GenEq.wm_core_from_eq m source hb, GenEq.wm_init_support_eq m⟩
+
+/-! **`WaveletMatrix::from(Vec<u64>)` and `start_offsets` as translated from the source on this run**
+(`Generated/FnsWMNew.lean`; the macro body `wavelet_matrix_from` at `u64`): the alphabet array `(i, 0)` for `i in 0..=max`,
+the counting loop `counts[value].1 += 1`, `sort_unstable_by_key` by the bit-reversed value, the prefix sums through
+`iter_mut()` (absent values get `len`), the sort back by value, `collect()` into an integer vector, `pack()` — and the
+assembly `WaveletMatrix { len, data: WMCore::from(source), first }`.  Equal to the model's `WM.ofValues`, which every query
+theorem above is about, for every vector whose alphabet array fits the representation bound; both sorts have distinct keys,
+so the instability of Rust's sort is immaterial (`GenEq.wn_sorted_unique`). -/
+theorem wavelet_matrix_construction_as_translated_from_source (m : Mode) (cap : Nat) (source : Array Word)
+    (hb : source.size + 63 < U64)
+    (hn : ((source.toList.map (·.toNat)).foldl max 0 + 1) * 64 + 63 < U64) :
+    Generated.gen_WaveletMatrix_from_u64 m cap source = ok (WM.ofValues (source.toList.map (·.toNat))) :=
+  GenEq.wm_from_eq m cap source hb hn
+
+theorem start_offsets_as_translated_from_source (m : Mode) (cap : Nat) (iter : List Word) (len : Nat) (maxv : Word)
+    (hle : ∀ x, x ∈ iter → x ≤ maxv) (hn : (maxv.toNat + 1) * 64 + 63 < U64) (hlen : iter.length < U64) :
+    Generated.gen_WaveletMatrix_start_offsets m cap iter len maxv =
+      ok (WM.startOffsets (iter.map (·.toNat)) len maxv.toNat) :=
+  GenEq.wm_start_offsets_eq m cap iter len maxv hle hn hlen
 
 end Sds.C04
